@@ -9,6 +9,8 @@ Not decided: numerical results, bit numbering, padding, crypto.
 """
 import re
 from .lib import *
+
+NEEDS_FLOW = True
 from .btab import BuiltinTables, RT
 from . import builtin_rules as br
 
@@ -65,12 +67,19 @@ def run(ctx, rep):
         rep.guarded("R04-DIVMOD", lambda: r_divmod(sh, rep, t))
         rep.rule("R04-WRAP", "consByteString: the wrapping variant reduces with mod_floor(256); the checked variant rejects both sides", floor=2)
         rep.guarded("R04-WRAP", lambda: r_wrap(sh, rep, t))
+    if t:
+        rep.rule("R04-GROUPSIB", "the G1 and G2 arms of each BLS builtin unwrap the same argument kinds and can fail with the same errors; multiScalarMul bounds every scalar of the whole list before pairing", floor=10)
+        rep.guarded("R04-GROUPSIB", lambda: r_groupsib(sh, rep, t))
     rep.guarded("R04-TAGS", lambda: r_tags(sh, rep))
     rep.rule("R04-TAGSITE", "the constructor-tag ranges are spelled out only in the functions R04-TAGS evaluates", floor=3)
     rep.guarded("R04-TAGSITE", lambda: r_tagsites(sh, rep, "R04-TAGSITE"))
     rep.rule("R04-BIGINTSITE", "pallas' BigUInt/BigNInt representation is taken apart only in from_pallas_bigint / to_pallas_bigint", floor=2)
     rep.guarded("R04-BIGINTSITE", lambda: r_bigintsites(sh, rep, "R04-BIGINTSITE"))
     rep.guarded("R04-GATE", lambda: r_gate(sh, rep))
+    rep.rule("R04-SERIAL", "serialiseData's re-encoder: one re-encoder per Data constructor; lists indefinite unless empty, maps definite, byte strings and integers through pallas' own encoders (64-byte chunking, canonical integer form)", floor=6)
+    rep.guarded("R04-SERIAL", lambda: r_serial(ctx.flow, rep))
+    rep.rule("R04-BIGREPR", "Data integers: the plain CBOR form is chosen by a fallible conversion from at least 128 bits into pallas' Int; the negative bignum payload is -1-n computed on big integers in both directions", floor=5)
+    rep.guarded("R04-BIGREPR", lambda: r_bigrepr(ctx.flow, rep, "R04-BIGREPR"))
 
 
 def r_divmod(sh, rep, t):
@@ -482,6 +491,165 @@ def r_wrap(sh, rep, t):
 # big-integer representation sites: pallas' BigUInt / BigNInt encoding is taken apart only by the two converters
 # ---------------------------------------------------------------------------------------------------------
 BIGINT_OWNERS = {"from_pallas_bigint", "to_pallas_bigint"}
+
+
+# ---------------------------------------------------------------------------------------------------------
+# R04-BIGREPR: the two owners of pallas' big-integer convention (type-resolved, MIR)
+# ---------------------------------------------------------------------------------------------------------
+VAL_RS = "crates/uplc/src/machine/value.rs"
+
+
+def _is_one(a):
+    return bool(re.match(r"^1(_[iu]\d+|_[iu]size)?$", a or ""))
+
+
+def r_bigrepr(fl, rep, rid):
+    """serialiseData / the flat and CBOR encoders write whatever to_pallas_bigint chose. The specification's canonical form is:
+    a plain CBOR integer for every n in [-2^64, 2^64-1] (exactly the range of pallas' `Int`), a tagged bignum otherwise, the
+    negative bignum carrying -1-n. Decided on MIR with resolved callees:
+      (a) the plain form is selected by a *fallible conversion into pallas Int from a type of at least 128 bits* — a
+          narrower intermediate (to_i64 / to_u64) pushes 64-bit values into the bignum form: same value, other bytes;
+      (b) to_pallas_bigint: a big-integer `+ 1` (or `- 1`) dominates the BigNInt result and not the BigUInt one;
+      (c) from_pallas_bigint: the value read with Sign::Minus is followed by a big-integer `- 1` (or `+ 1` before negation)."""
+    from . import flowrun
+
+    to = fl.fn("uplc::machine::value::to_pallas_bigint")
+    fr = fl.fn("uplc::machine::value::from_pallas_bigint")
+    rep.touched(VAL_RS, "to_pallas_bigint")
+    rep.touched(VAL_RS, "from_pallas_bigint")
+    WIDE = ("i128", "u128", "num_bigint::BigInt", "&num_bigint::BigInt")
+    conv = []
+    for i, b in enumerate(to["blocks"]):
+        if b.get("k") == "call" and last(b.get("decl") or b.get("callee") or "") in ("try_into", "try_from") and "Int" in (b.get("targs") or ""):
+            src = (b.get("at") or [""])[0]
+            conv.append((i, b, src))
+    wide = [c for c in conv if c[2] in WIDE]
+    aggs = {a["v"]: a["bb"] for a in to["aggs"] if a["adt"].endswith("BigInt")}
+    dom = flowrun.dominators(to)
+    rep.check(bool(wide) and "Int" in aggs and any(i in dom.get(aggs["Int"], ()) for i, _, _ in wide), rid, "to_pallas_bigint#plain-form-from-128-bits", "%s:%s" % (VAL_RS, to["line"]), "the plain CBOR form (BigInt::Int) must be guarded by a fallible conversion from >= 128 bits into pallas Int, whose range is the CBOR integer range; found conversions from %s: values between 2^63 and 2^64 (or their negatives) would be written as bignums — equal as numbers, different bytes under serialiseData" % [c[2] for c in conv], sample={"conversions": [c[2] for c in conv]})
+    narrow = [last(b.get("decl") or b.get("callee") or "") for b in to["blocks"] if b.get("k") == "call" and last(b.get("decl") or b.get("callee") or "") in ("to_i64", "to_u64", "to_i32", "to_u32", "to_isize", "to_usize")]
+    rep.check(not narrow or bool(wide), rid, "to_pallas_bigint#no-narrow-only-selector", "%s:%s" % (VAL_RS, to["line"]), "to_pallas_bigint selects the representation through %s only" % narrow, nontrivial=False)
+    arith = [(i, b) for i, b in enumerate(to["blocks"]) if b.get("k") == "call" and last(b.get("decl") or "") in ("add", "sub") and "BigInt" in (b.get("self_ty") or "") and any(_is_one(a) for a in b.get("a", []))]
+    okn = "BigNInt" in aggs and "BigUInt" in aggs and any(i in dom.get(aggs["BigNInt"], ()) and i not in dom.get(aggs["BigUInt"], ()) for i, _ in arith)
+    rep.check(okn, rid, "to_pallas_bigint#negative-payload-is-minus-one-minus-n", "%s:%s" % (VAL_RS, to["line"]), "the BigNInt payload must be computed by big-integer arithmetic with the constant 1 on the negative branch only (found %d such operation(s)): byte-level shortcuts lose the borrow / carry at multiples of 256" % len(arith), sample={"ops": [last(b["decl"]) for _, b in arith]})
+    for v in ("BigUInt", "BigNInt"):
+        tb = [i for i, b in enumerate(to["blocks"]) if b.get("k") == "call" and (b.get("callee") or "").endswith("BigInt::to_bytes_be") and v in aggs and i in dom.get(aggs[v], ())]
+        rep.check(bool(tb), rid, "to_pallas_bigint#%s#magnitude-from-to_bytes_be" % v, "%s:%s" % (VAL_RS, to["line"]), "the %s payload must be the big-endian magnitude (BigInt::to_bytes_be) of the big integer" % v)
+    # reader
+    lc = fr.get("lc") or {}
+    minus_reads = [i for i, b in enumerate(fr["blocks"]) if b.get("k") == "call" and (b.get("callee") or "").endswith("BigInt::from_bytes_be") and b.get("a") and lc.get(b["a"][0].lstrip("_")) == "num_bigint::Sign::Minus"]
+    plus_reads = [i for i, b in enumerate(fr["blocks"]) if b.get("k") == "call" and (b.get("callee") or "").endswith("BigInt::from_bytes_be") and b.get("a") and lc.get(b["a"][0].lstrip("_")) == "num_bigint::Sign::Plus"]
+    farith = [(i, b) for i, b in enumerate(fr["blocks"]) if b.get("k") == "call" and last(b.get("decl") or "") in ("add", "sub") and "BigInt" in (b.get("self_ty") or "") and any(_is_one(a) for a in b.get("a", []))]
+    fdom = flowrun.dominators(fr)
+    okr = len(minus_reads) == 1 and len(plus_reads) == 1 and len(farith) == 1 and minus_reads[0] in fdom.get(farith[0][0], ()) and plus_reads[0] not in fdom.get(farith[0][0], ()) and last(farith[0][1]["decl"]) == "sub"
+    rep.check(okr, rid, "from_pallas_bigint#negative-is-minus-magnitude-minus-one", "%s:%s" % (VAL_RS, fr["line"]), "BigNInt(bytes) must read as -(magnitude) - 1 and BigUInt(bytes) as the magnitude: %d Sign::Minus read(s), %d Sign::Plus read(s), %d big-integer +/-1 operation(s)" % (len(minus_reads), len(plus_reads), len(farith)), sample={"minus_reads": len(minus_reads), "ops": [last(b["decl"]) for _, b in farith]})
+
+
+# ---------------------------------------------------------------------------------------------------------
+# R04-GROUPSIB: sibling agreement of the G1 / G2 builtin arms
+# ---------------------------------------------------------------------------------------------------------
+def _err_variants(sh, node):
+    out = set()
+    for n in walk(node):
+        if n.get("k") in ("Call", "Path", "Struct"):
+            p = n["f"].get("p") if n["k"] == "Call" and n["f"].get("k") == "Path" else n.get("p")
+            if p and p.startswith("Error::"):
+                out.add(p.split("::")[1])
+    return out
+
+
+def r_groupsib(sh, rep, t):
+    """Every BLS12-381 group builtin exists once per group with the same specification. The two arms are implemented
+    separately (for multiScalarMul even with different algorithms), so what the specification fixes for both — which
+    argument kinds are unwrapped, which errors can be raised — is cross-checked; and for multiScalarMul the clause the
+    specification states explicitly: *every* scalar of the first list must lie within the 512-byte bound, also those that
+    the shorter point list leaves unpaired (the bound test sits in a loop over the scalar list alone)."""
+    pairs = sorted((a, a.replace("G1", "G2")) for a in t.call if "_G1_" in a)
+    for a, b in pairs:
+        if b not in t.call:
+            rep.bad("R04-GROUPSIB", a + "#no-G2-sibling", RT, "no arm for %s" % b)
+            continue
+        ua = [n["m"] for n in walk(t.call[a]["body"]) if n.get("k") == "MethodCall" and n["m"].startswith("unwrap_")]
+        ub = [n["m"] for n in walk(t.call[b]["body"]) if n.get("k") == "MethodCall" and n["m"].startswith("unwrap_")]
+        ea, eb = _err_variants(sh, t.call[a]["body"]), _err_variants(sh, t.call[b]["body"])
+        rep.check([x.replace("g1", "gX") for x in ua] == [x.replace("g2", "gX") for x in ub] and ea == eb, "R04-GROUPSIB", a + "#agrees-with-G2", sh.loc(RT, t.call[b]), "%s and %s disagree: unwraps %s vs %s, errors %s vs %s" % (a, b, ua, ub, sorted(ea), sorted(eb)), sample={"unwraps": ua, "errors": sorted(ea)})
+    for v in [x for x in t.call if x.endswith("MultiScalarMul")]:
+        arm = t.call[v]
+        scal = None
+        for n in walk(arm["body"]):
+            if n.get("k") == "Local" and n.get("init") is not None and n["pat"].get("k") in ("PTuple", "Tuple") and len(n["pat"]["elems"]) == 2:
+                src = sh.nsrc(RT, n["init"])
+                if src.startswith("args[0].unwrap_list()"):
+                    scal = n["pat"]["elems"][1].get("name")
+        found = []
+
+        def visit(node, loops):
+            if isinstance(node, dict):
+                if node.get("k") == "For":
+                    visit(node["e"], loops)
+                    visit(node["body"], loops + [node])
+                    return
+                if node.get("k") in ("Call", "Path") and (node["f"].get("p") if node["k"] == "Call" and node["f"].get("k") == "Path" else node.get("p")) == "Error::MsmScalarOutOfBounds":
+                    found.append(list(loops))
+                for x in node.values():
+                    visit(x, loops)
+            elif isinstance(node, list):
+                for x in node:
+                    visit(x, loops)
+
+        visit(arm["body"], [])
+        ok = scal is not None and bool(found)
+        why = []
+        for loops in found:
+            if not loops:
+                ok = False
+                why.append("bound test outside any loop")
+                continue
+            it = sh.nsrc(RT, loops[-1]["e"])
+            if not re.search(r"\b%s\b" % re.escape(scal or "?"), it) or re.search(r"\.(zip|take|skip|take_while|step_by)\(", it):
+                ok = False
+                why.append("bound test inside `for … in %s`" % it[:60])
+        rep.check(ok, "R04-GROUPSIB", v + "#bounds-every-scalar", sh.loc(RT, arm), "%s must test *every* element of its scalar list `%s` against the bound (a loop over that list alone): %s — a scalar beyond 512 bytes that the shorter point list leaves unpaired must still fail the call" % (v, scal, "; ".join(why) or "no MsmScalarOutOfBounds exit found"), sample={"scalars": scal, "exits": len(found)})
+
+
+# ---------------------------------------------------------------------------------------------------------
+# R04-SERIAL: the canonical CBOR form written by serialiseData (type-resolved calls on the minicbor encoder)
+# ---------------------------------------------------------------------------------------------------------
+LIBRS = "crates/uplc/src/lib.rs"
+
+
+def _enc_calls(f):
+    """[(method, type-args, args)] of calls on minicbor::Encoder in a function"""
+    out = []
+    for b in f["blocks"]:
+        m = re.search(r"minicbor::Encoder::<W>::(\w+)$", b.get("callee") or "") if b.get("k") == "call" else None
+        if m:
+            out.append((m.group(1), b.get("targs") or "", b.get("a") or []))
+    return out
+
+
+def r_serial(fl, rep):
+    """The Plutus specification fixes the bytes of serialiseData: lists (and constructor fields) indefinite-length unless
+    empty, maps definite-length, byte strings in 64-byte chunks when longer than 64 bytes, integers in the shortest CBOR
+    form. The first two are written by hand in uplc/src/lib.rs; the last two are what pallas' Encode impls of BoundedBytes
+    and BigInt do, so the re-encoder must delegate to exactly those impls (resolved type argument of Encoder::encode)."""
+    fns = {n: fl.fn("uplc::reencode_plutus_" + n) for n in ("data", "constr", "map", "array", "bytes", "bigint")}
+    for n, f in fns.items():
+        rep.touched(LIBRS, "reencode_plutus_" + n)
+    routed = sorted({(b.get("callee") or "").split("reencode_plutus_")[-1] for b in fns["data"]["blocks"] if b.get("k") == "call" and "reencode_plutus_" in (b.get("callee") or "")})
+    rep.check(routed == ["array", "bigint", "bytes", "constr", "map"], "R04-SERIAL", "data#one-re-encoder-per-constructor", "%s:%s" % (LIBRS, fns["data"]["line"]), "reencode_plutus_data routes to %s; each of the five Data constructors has its own re-encoder" % routed, sample={"routes": routed})
+    m = _enc_calls(fns["map"])
+    rep.check([x[0] for x in m] == ["map"], "R04-SERIAL", "map#definite-length", "%s:%s" % (LIBRS, fns["map"]["line"]), "maps must be written with a definite length header only (Encoder::map); found %s" % [x[0] for x in m], sample={"encoder_calls": [x[0] for x in m]})
+    a = _enc_calls(fns["array"])
+    names = sorted(x[0] for x in a)
+    zero = [x for x in a if x[0] == "array"]
+    rep.check(names == ["array", "begin_array", "end"] and len(zero) == 1 and re.match(r"^0(_u\d+)?$", (zero[0][2] + ["", ""])[1] or ""), "R04-SERIAL", "array#indefinite-unless-empty", "%s:%s" % (LIBRS, fns["array"]["line"]), "lists must be written as array(0) when empty and begin_array … end otherwise; found %s" % [(x[0], x[2][1:]) for x in a], sample={"encoder_calls": names})
+    for n, ty in (("bytes", "BoundedBytes"), ("bigint", "BigInt")):
+        c = _enc_calls(fns[n])
+        rep.check(len(c) == 1 and c[0][0] == "encode" and re.search(r"pallas_primitives::%s\b" % ty, c[0][1]), "R04-SERIAL", "%s#delegates-to-pallas-%s-encoder" % (n, ty), "%s:%s" % (LIBRS, fns[n]["line"]), "reencode_plutus_%s must hand the value to pallas' Encode impl of %s (found %s): that impl carries the canonical form — 64-byte chunks for long byte strings, shortest integer form — a direct Encoder::bytes / int call writes other bytes for the same value" % (n, ty, [(x[0], x[1][-60:]) for x in c]), sample={"encoder_calls": [x[0] for x in c]})
+    c = _enc_calls(fns["constr"])
+    fields_via_array = any("reencode_plutus_array" in (b.get("callee") or "") for b in fns["constr"]["blocks"] if b.get("k") == "call")
+    rep.check("tag" in [x[0] for x in c] and fields_via_array and not {"begin_array", "end"} & {x[0] for x in c}, "R04-SERIAL", "constr#tag-then-fields-as-list", "%s:%s" % (LIBRS, fns["constr"]["line"]), "a constructor is its tag followed by its fields written by the list re-encoder; found encoder calls %s, fields via reencode_plutus_array: %s" % ([x[0] for x in c], fields_via_array), sample={"encoder_calls": [x[0] for x in c]})
 
 
 def _int_pattern_sites(body):
